@@ -8,3 +8,9 @@ package l4proxyprotocol
 //@ requires wfm(cx)
 //@ safety C04
 //@ implements[C06] (m github.com/mholt/caddy-l4/layer4.ConnMatcher) Match
+
+// wire definition: a v1 header starts with "PROXY", a v2 header with the 12-byte signature
+//@ ensures[C06] err == nil || err == layer4.ErrConsumedAllPrefetchedBytes
+//@ ensures[C06] (err == layer4.ErrConsumedAllPrefetchedBytes) == (old(avail(cx)) < 12)
+//@ ensures[C06] err != nil ==> !matched
+//@ ensures[C14] err == nil ==> matched == (old(bytes(cx.buf[cx.offset:cx.offset+5])) == "PROXY" || old(bytes(cx.buf[cx.offset:cx.offset+12])) == "\r\n\r\n\x00\r\nQUIT\n")
